@@ -178,6 +178,11 @@ def isNumberLiteral : Option Node → Bool
   | some (.intLit _) | some (.floatLit _) => true
   | _ => false
 
+/-- after the dot only a single token (or an identifier with its postfix operator) is read without parentheses -/
+def isSingleToken : Option Node → Bool
+  | some (.ident _) | some (.strLit _) | some (.boolean _) | some (.post ..) => true
+  | _ => false
+
 def litByte (t : Tk) : UInt8 := t.lit.headD 0
 
 mutual
@@ -362,7 +367,7 @@ def printNode (tbl : Nat → Bool) (n : Node) (ps : PrintState) : PR :=
         let ps := if lp then ps.print [41] else ps
         let ps := ps.print t.lit
         let ps := { ps with exprPrec := prioLOWEST }
-        let ip := t.type = .DOT && isNumberLiteral idx
+        let ip := t.type = .DOT && (isNumberLiteral idx || !isSingleToken idx)
         match printO tbl idx (if ip then ps.print [40] else ps) with
         | .error e => .error e
         | .ok ps =>
